@@ -564,6 +564,7 @@ class LineInterrupter(object):
     self.fired = False
     self.where = None
     self._old = None
+    self.by_func = {}        # counting mode: (file, function) -> line-event indices, in order of first entry
 
   def _global(self, frame, event, arg):
     if frame.f_code.co_filename.startswith(self.root):
@@ -574,8 +575,10 @@ class LineInterrupter(object):
     if event == "line":
       k = self.n
       self.n += 1
-      if self.at is None and self.n >= self.CAP:
-        raise LineInterrupter.StopCount()
+      if self.at is None:
+        self.by_func.setdefault((frame.f_code.co_filename, frame.f_code.co_name), []).append(k)
+        if self.n >= self.CAP:
+          raise LineInterrupter.StopCount()
       if self.at is not None and k == self.at and not self.fired:
         self.fired = True
         fn = frame.f_code.co_filename[len(self.root):]
@@ -591,6 +594,132 @@ class LineInterrupter(object):
   def __exit__(self, *exc):
     sys.settrace(self._old)
     return False
+
+
+# ------------------------------------------------------- pristine-process seam
+
+def _read_exact(fd, n):
+  import os
+  buf = b""
+  while len(buf) < n:
+    chunk = os.read(fd, min(1 << 20, n - len(buf)))
+    if not chunk:
+      return None
+    buf += chunk
+  return buf
+
+
+def _write_all(fd, data):
+  import os
+  mv = memoryview(data)
+  while len(mv):
+    k = os.write(fd, mv[:1 << 20])
+    mv = mv[k:]
+
+
+class PristineServer(object):
+  """A process forked *before any simulated history has run* (at worker start,
+  or at first use in a fresh interpreter).  It serves reference computations:
+  each request is executed in a grandchild forked from the still pristine
+  server, so neither the history under test nor earlier reference computations
+  can have left anything behind in module-level state of metric-learn or of its
+  dependencies (caches, registries, class attributes, mutated default lists).
+  This is what "a fresh process" means for a fresh-object reference model."""
+
+  def __init__(self):
+    import os
+    c2s_r, c2s_w = os.pipe()
+    s2c_r, s2c_w = os.pipe()
+    pid = os.fork()
+    if pid == 0:
+      try:
+        os.close(c2s_w)
+        os.close(s2c_r)
+        self._serve(c2s_r, s2c_w)
+      except BaseException:
+        pass
+      finally:
+        os._exit(0)
+    os.close(c2s_r)
+    os.close(s2c_w)
+    self.w, self.r, self.pid = c2s_w, s2c_r, pid
+    self.calls = 0
+
+  @staticmethod
+  def _serve(rfd, wfd):
+    import os
+    import signal
+    import struct
+    signal.setitimer(signal.ITIMER_PROF, 0)
+    signal.alarm(0)
+    for sg in (signal.SIGALRM, signal.SIGPROF, signal.SIGINT, signal.SIGTERM):
+      try:
+        signal.signal(sg, signal.SIG_DFL)
+      except Exception:
+        pass
+    while True:
+      hdr = _read_exact(rfd, 8)
+      if hdr is None:
+        return
+      payload = _read_exact(rfd, struct.unpack(">Q", hdr)[0])
+      if payload is None:
+        return
+      gr, gw = os.pipe()
+      g = os.fork()
+      if g == 0:
+        code = 0
+        try:
+          os.close(gr)
+          signal.alarm(180)
+          try:
+            func, arg = pickle.loads(payload)
+            out = ("ok", func(arg))
+          except BaseException as e:
+            out = ("exc", (type(e).__name__, str(e)[:500]))
+          _write_all(gw, pickle.dumps(out, protocol=4))
+        except BaseException:
+          code = 1
+        finally:
+          os._exit(code)
+      os.close(gw)
+      chunks = []
+      while True:
+        c = os.read(gr, 1 << 20)
+        if not c:
+          break
+        chunks.append(c)
+      os.close(gr)
+      try:
+        os.waitpid(g, 0)
+      except Exception:
+        pass
+      data = b"".join(chunks) or pickle.dumps(("exc", ("ChildDied", "reference child produced no answer")))
+      _write_all(wfd, struct.pack(">Q", len(data)) + data)
+
+  def call(self, func, arg):
+    """Run func(arg) in a pristine process; returns ('ok', value) or ('exc', (type name, message))."""
+    import struct
+    payload = pickle.dumps((func, arg), protocol=4)
+    _write_all(self.w, struct.pack(">Q", len(payload)) + payload)
+    hdr = _read_exact(self.r, 8)
+    if hdr is None:
+      raise RuntimeError("pristine server is gone")
+    data = _read_exact(self.r, struct.unpack(">Q", hdr)[0])
+    self.calls += 1
+    return pickle.loads(data)
+
+
+_PRISTINE = [None, None]
+
+
+def pristine():
+  """The pristine server of this process (created on first use; pool workers
+  create theirs before their first run)."""
+  import os
+  if _PRISTINE[0] is None or _PRISTINE[1] != os.getpid():
+    _PRISTINE[0] = PristineServer()
+    _PRISTINE[1] = os.getpid()
+  return _PRISTINE[0]
 
 
 # ------------------------------------------------------------ ambient state
